@@ -54,3 +54,10 @@
 ; rtypT(tid), rtypD(tid): the two words of reflect.TypeOf(x) for a value x whose dynamic type has id tid
 (declare-fun rtypT ((_ BitVec 64)) (_ BitVec 64))
 (declare-fun rtypD ((_ BitVec 64)) (_ BitVec 64))
+
+; Ghost partial sums for "Size and Append walk the same elements": psum(i) is
+; the encoded size of the first i fields / elements. Uninterpreted; constrained
+; only under the ghost hypothesis wfsum (definitional: psum(0) = 0 and a
+; recurrence instantiated at the loop counter).
+(declare-const wfsum Bool)
+(declare-fun psum ((_ BitVec 64)) (_ BitVec 64))
